@@ -151,7 +151,7 @@ class Recorder:
         self.meta.append({"type": "code 0x%02x" % code, "shape": "code 0x%02x" % code, "label": label})
 
 
-def judge(ctx, rec, tag, shard_events=6000, shard_bytes=6_000_000, workers=14, timeout=1500):
+def judge(ctx, rec, tag, shard_events=6000, shard_bytes=6_000_000, workers=14, timeout=1500, module="TraceCodec"):
     """Shard rec.events, run TraceCodec on each shard in parallel, return list of (event index, clause)."""
     tdir = os.path.join(core.OUT, "traces")
     os.makedirs(tdir, exist_ok=True)
@@ -174,14 +174,14 @@ def judge(ctx, rec, tag, shard_events=6000, shard_bytes=6_000_000, workers=14, t
 
     def one(item):
         start, n, p = item
-        res = tlc.run("TraceCodec", "TraceCodec.cfg", workers=1, env={"TRACE_FILE": p}, timeout=timeout, xmx="3g")
+        res = tlc.run(module, module + ".cfg", workers=1, env={"TRACE_FILE": p}, timeout=timeout, xmx="3g")
         return start, n, p, res
 
     fails = []
     with ThreadPoolExecutor(max_workers=workers) as ex:
         for start, n, p, res in ex.map(one, paths):
             if not res.ok:
-                raise core.Machinery("TraceCodec aborted on shard %s (events %d..%d): %s" % (p, start, start + n, res.out[-1800:]))
+                raise core.Machinery(module + " aborted on shard %s (events %d..%d): %s" % (p, start, start + n, res.out[-1800:]))
             ctx.add_tlc(res, "R3")
             for _, i, clause in res.tuples("FAIL"):
                 fails.append((start + i - 1, clause))
